@@ -27,4 +27,22 @@ ItemIsCount == ok => (Value(lut) = yielded /\ WellFormed(N, lut))
 \* after the last item the table has wrapped to zero and exactly 2^(2^N) items were returned
 DoneOK == ~ok => (yielded = 2^(2^N) /\ lut = FillZero(N))
 Terminates == <>(~ok)
+
+\* Iterator::nth as the standard library provides it (k + 1 calls of next, the last one returned) against the
+\* arithmetic statement of the specification (BoolFn!IterNth: AddTab, Succ), from every state of the run
+RECURSIVE DefaultNth(_, _, _)
+DefaultNth(t, o, k) ==      \* [tab, ok, some, item]
+  IF ~o THEN [tab |-> t, ok |-> FALSE, some |-> FALSE, item |-> {}]
+  ELSE LET nx == NextK(N, t) IN
+       IF k = 0 THEN [tab |-> nx.tab, ok |-> nx.ok, some |-> TRUE, item |-> Abs(N, t)]
+       ELSE DefaultNth(nx.tab, nx.ok, k - 1)
+Jumps == {0, 1, 2, 5, 2^(2^N) - yielded - 1, 2^(2^N) - yielded, 2^(2^N) - yielded + 1}
+NthOK == \A k \in {j \in Jumps : j >= 0 /\ j <= 40} :
+           LET d == DefaultNth(lut, ok, k)
+               a == IterNth(N, [cur |-> Abs(N, lut), ok |-> ok], k)
+           IN /\ d.some = a.some /\ d.ok = a.ok
+              /\ (d.some => d.item = a.item)
+              /\ (d.ok => Abs(N, d.tab) = a.cur)
+\* what count() will see from here
+CountOK == ok => (SumSet({2^m : m \in CountFrom(N, Abs(N, lut))}) + yielded = 2^(2^N))
 =============================================================================
